@@ -48,6 +48,7 @@ func treesCmd(args []string) *rep.Result {
 	c.register(fs)
 	modes := fs.String("modes", "c01", "replay modes: c01,c02,c14,c04")
 	fs.Parse(args)
+	c.allVariants = c.prop == "C01"
 	res := rep.New()
 	defer func() { res.Write(c.out) }()
 	cp, err := conc.Load(c.corpus)
@@ -296,6 +297,13 @@ func runTreeLaw(l *TreeLine, pkg *reg.Pkg, x *conc.Ctx, mode string, res *rep.Re
 		if pkg.Compressed {
 			s["compressed"] = "true"
 		}
+		if !pkg.SimpleUnion && x.V.HasType("u-bu") {
+			for _, t := range typesIn(&l.T, x) {
+				if t == "u-bu" {
+					s["wrapper_union_binary"] = "true"
+				}
+			}
+		}
 		s["shape"] = x.V.Shape
 		if !pkg.SimpleUnion {
 			for _, t := range typesIn(&l.T, x) {
@@ -523,6 +531,12 @@ func runTreeLaw(l *TreeLine, pkg *reg.Pkg, x *conc.Ctx, mode string, res *rep.Re
 			res.Violate("C14", sig("C14", "build-prune"), "BuildEmptyTree+PruneEmptyBranches changed the leaf set: "+strings.Join(abs.Diff(b, orig, false), "; "), tc)
 		}
 	case "c04":
+		// every tree also carries an unkeyed list (config false st/ul) with two elements and,
+		// in the variants that have one, the binary / union leaf-list values of the slice
+		if n := augmentUnkeyed(root, pkg, x); n > 0 {
+			orig = conc.Restrict(abs.Project(root, pkg), x.V)
+			res.Count("augmented_unkeyed", 1)
+		}
 		var cpy ygot.GoStruct
 		cerr, pan := guard(func() error {
 			var err error
@@ -606,4 +620,26 @@ func subStruct(root ygot.GoStruct, x *conc.Ctx) (ygot.GoStruct, []*gpb.PathElem)
 		return nil, nil
 	}
 	return gs, pre
+}
+
+// augmentUnkeyed adds two elements to the unkeyed list st/ul of the variant (uncompressed
+// shape only; the compressed packages have no such list) and returns how many it added.
+func augmentUnkeyed(root ygot.GoStruct, pkg *reg.Pkg, x *conc.Ctx) int {
+	if x.V.Shape != "T" {
+		return 0
+	}
+	n := 0
+	for i, atom := range []string{"v1", "v2"} {
+		val, err := x.Value("st/ul/u", atom)
+		if err != nil {
+			continue
+		}
+		p := append(abs.Path(append([]string{}, x.V.Prefix()...)), "st", "ul", fmt.Sprintf("=#%d", n), "u")
+		if err := abs.SetLeaf(reflect.ValueOf(root), p, val, pkg); err != nil {
+			continue
+		}
+		_ = i
+		n++
+	}
+	return n
 }
